@@ -53,7 +53,10 @@ def main():
     expr = job.get('expr') or vf_gen.render(job['tokens'])
     res = {'id': job['id'], 'expr': expr}
     try:
-        if job.get('twospace'):
+        if job.get('ncu', 1) > 1 or job.get('ncv', 1) > 1:
+            bf = ([('u', job['ncu'])] if job['bilinear'] else []) + [('v', job['ncv'])]
+            M = assemble.assemble(expr, kvs, args=args, bfuns=bf)
+        elif job.get('twospace'):
             kvs1 = tuple(bspline.KnotVector(np.array(k, dtype=float), p) for k, p in zip(job['kvs1'], job['ps1']))
             M = assemble.assemble(expr, (kvs, kvs1), args=args, bfuns=[('u', 1, 0), ('v', 1, 1)])
         else:
